@@ -255,6 +255,7 @@ mut("c17_range_field_order", "src/filter/range.rs", """    #[serde(serialize_wit
 mut("c17_blob_version_unchecked", "src/blob/header.rs", "        if self.version != BLOB_VERSION {", "        if false && self.version != BLOB_VERSION {", ["C17"], "blob format version no longer validated")
 mut("c17_bit_order", "src/filter/atomic_bitvec.rs", "        let mask = 1u64 << (bit_index % Self::ITEM_BITS_SIZE);", "        let mask = 1u64 << (63 - bit_index % Self::ITEM_BITS_SIZE);", ["C17", "C10"], "bit order inside the 64-bit words reversed (in-memory only: off-loaded probing disagrees)")
 mut("c17_hash_two_byte_keys", "src/filter/ahash/operations.rs", "    if data.len() >= 2 {", "    if data.len() > 2 {", ["C17", "C10"], "operator mutant (tools/opmut.py): the bloom hash of 2-byte keys changes (self-consistent, so no false negative inside one build; files of the pinned release would be probed at other bits). The corpus directories have 4/8/16/32-byte keys only; the bloom vectors cover every length")
+mut("c08_force_update_creates_outside_lock", "src/storage/observer_worker.rs", "    let mut safe = inner.safe().write().await;\n    let new_active = get_new_active_blob(inner).await?;\n    safe.replace_active_blob(new_active).await?;\n", "    let new_active = get_new_active_blob(inner).await?;\n    inner.safe().write().await.replace_active_blob(new_active).await?;\n", ["C08"], "reverts fix 90e63b1: the forced update creates its blob before taking the storage lock (closed blobs out of id order, tied records ranked differently after a restart)")
 # ---- fixes reverted (monitors must still fire)
 mut("f1_worker_panic", "src/storage/observer_worker.rs", """                    error!("ObserverWorker error, request skipped: {:?}", err);""", """                    panic!("ObserverWorker unexpected error: {:?}", err);""", ["C13", "C04"], "reverts fix F1")
 mut("f2_restore_no_load", "src/storage/core.rs", """                if let Err(e) = blob.load_index().await {
